@@ -12,6 +12,7 @@ import (
 
 	"github.com/istio-ecosystem/authservice/internal/oidc"
 	"github.com/istio-ecosystem/authservice/zzverif/ev"
+	"github.com/istio-ecosystem/authservice/zzverif/hidden"
 	"github.com/istio-ecosystem/authservice/zzverif/schedx"
 	"github.com/istio-ecosystem/authservice/zzverif/seqx"
 	"github.com/istio-ecosystem/authservice/zzverif/vsched"
@@ -283,7 +284,8 @@ func c12Model(run *ev.Run) seqx.Model {
 		Enabled: func(sy seqx.Sys, hist []seqx.Event, fresh func() seqx.Sys) []seqx.Event { return evs },
 		Canon: func(sy seqx.Sys) string {
 			s := sy.(*c12Sys)
-			return c12MemDump(s.mem) + "|" + s.redisDump()
+			return c12MemDump(s.mem) + "|" + s.redisDump() + "|" + hidden.Dump(s.mem, "log", "clock", "mu", "sessions") +
+				hidden.Dump(s.red[0], "log", "clock", "client") + hidden.Dump(s.red[1], "log", "clock", "client")
 		},
 	}
 }
